@@ -120,7 +120,16 @@ func deepCastRecursive(val Value, typ ast.Type, span errors.Span, allowCasts boo
 			}
 			return NewValueOption(innerCast), nil
 		}
-		return NewValueOption(&val), nil
+		// `null` is how an absent value arrives from dynamic sources (such as JSON).
+		if val.Kind() == NullValueKind {
+			return NewNoneOption(), nil
+		}
+		// A value which is no option is wrapped, but only if it conforms to the option's inner type.
+		innerOnly, castErr := deepCastRecursive(val, typ.(ast.OptionType).Inner, span, allowCasts, fieldURI)
+		if castErr != nil {
+			return nil, castErr
+		}
+		return NewValueOption(innerOnly), nil
 	}
 
 	switch val.Kind() {
